@@ -607,6 +607,43 @@ func c13Run(c *core.Ctx) {
 			}
 		}
 	}
+	// related TACs: every list of 1..4 (thorough 5) TAIs of one PLMN whose TACs come from a window of five consecutive
+	// values (consecutive runs, repeats, gaps, descending runs — what an encoder that recognises "consecutive TACs"
+	// must tell apart), at two window positions, through the TAI list and the LADN
+	{
+		maxN := 4
+		if thorough {
+			maxN = 5
+		}
+		for wi, base := range []int{0x00a001, 0x00fffd} {
+			var rec func(cur []c13Tai)
+			rec = func(cur []c13Tai) {
+				if len(cur) > 0 {
+					in := c13TaiList{Tais: append([]c13Tai{}, cur...)}
+					if c.Begin("tailist", "TaiListToNas", in) {
+						c13TaiExec(c, in)
+						n++
+					}
+					li := c13Ladn{Dnn: "696e7465726e6574", Tais: in.Tais}
+					if c.Begin("ladn", "LadnToNas", li) {
+						c13LadnExec(c, li)
+						n++
+					}
+				}
+				if len(cur) == maxN {
+					return
+				}
+				for d := 0; d < 5; d++ {
+					rec(append(cur, c13Tai{"208", "93", fmt.Sprintf("%06x", base+d)}))
+				}
+			}
+			for d := 0; d < 5; d++ {
+				if c.Mine(wi*5 + d + 2) {
+					rec([]c13Tai{{"208", "93", fmt.Sprintf("%06x", base+d)}})
+				}
+			}
+		}
+	}
 	// TAI lists: all lists of 1..6 over {A,B} x {000001, fffffe}; 7..16 entries: all-same and single deviations
 	// PLMN alphabet: a base PLMN, one sharing its MCC, one sharing its MNC, one differing in both (2- and 3-digit MNCs)
 	taiAlpha := []c13Tai{{"208", "93", "000001"}, {"208", "93", "fffffe"}, {"208", "94", "000001"}, {"262", "93", "000002"}, {"001", "001", "000001"}, {"001", "001", "fffffe"}, {"001", "01", "000004"}, {"208", "093", "000003"}}
